@@ -70,7 +70,7 @@ EXTERNAL = {
     "vswprintf":     dict(ret_count=(0, 4), gram="wprintf", w=[(0, (A, 1, 4))], r=[(2, ("nul",))], fmt=2, va=3),
     # ---- multibyte
     "mbstowcs":      dict(ret_count=(0, 4), w=[(0, (A, 2, 4))], r=[(1, ("nul",))]),
-    "wcstombs":      dict(ret_count=(0, 1), w=[(0, (A, 2, 1))], r=[(1, ("nul",))]),
+    "wcstombs":      dict(ret_count=(0, 1), w=[(0, (A, 2, 1))], r=[(1, ("argnul", 2, 4))]),    # stops after arg2 bytes: at most arg2 wide characters are read
     "mbsrtowcs":     dict(ret_count=(0, 4), w=[(0, (A, 2, 4)), (1, ("const", 8)), (3, ("const", 8))], r=[(1, ("const", 8))]),
     "wcsrtombs":     dict(ret_count=(0, 1), w=[(0, (A, 2, 1)), (1, ("const", 8)), (3, ("const", 8))], r=[(1, ("const", 8))]),
     "wcrtomb":       dict(w=[(0, ("const", 16)), (2, ("const", 8))]),      # MB_LEN_MAX = 16 on glibc
